@@ -130,6 +130,17 @@ static inline Mat gen_matrix(Rng &r, int nmin, int nmax, bool allow_tall, bool c
     std::string vm = kValueModes[r.below(4)];
     gen_values(r, A, vm, cplx);
     A.family = fam + "/" + vm;
+    // compressed-column storage does not require sorted row indices inside a column: a third of the matrices come unsorted
+    // (own stream derived from the pattern, so that the matrices themselves stay what they were)
+    { Hash64 hp; hp.u64((uint64_t)A.n * 1000003ULL + (uint64_t)A.nnz()); for (int v : A.rowind) hp.u64((uint64_t)v);
+      Rng rs(hp.h);
+      if (rs.chance(0.33)) {
+          for (int j = 0; j < A.n; j++) for (int k = A.colptr[j + 1] - 1; k > A.colptr[j]; k--) {
+              int q = A.colptr[j] + (int)rs.below((uint64_t)(k - A.colptr[j] + 1));
+              std::swap(A.rowind[k], A.rowind[q]); std::swap(A.re[k], A.re[q]); std::swap(A.im[k], A.im[q]);
+          }
+          A.trans.clear(); A.family += "/unsorted";
+      } }
     return A;
 }
 
